@@ -505,3 +505,112 @@ func firstNodeOf(st ast.Stmt) ast.Node {
 	}
 	return st
 }
+
+// ruleFieldBlockOnce: a field block can be linked from more than one composite — two nodes that make the
+// same change to a field on the same state write the very same block. Composites are merged once (the
+// walk stops at the merge target), but processBlock is handed every field link of every newly merged
+// composite, so it has to establish itself that a field block is not already merged before it applies
+// it: on the field-block path (the delta is neither a composite nor a collection delta) every path to
+// coreblock.ProcessBlock passes a check that consults the heads of that field for the block's own cid,
+// and with the check answering "already merged" ProcessBlock is unreachable. Otherwise the shared block
+// is applied a second time (a counter increment twice) and updateHeads re-adds it as a head although a
+// current head names it as its parent.
+func ruleFieldBlockOnce(c *eng.Ctx) {
+	const rule = "FIELD-BLOCK-ONCE"
+	fi := c.Anchor(rule, "internal/db.(*mergeProcessor).processBlock")
+	if fi == nil {
+		return
+	}
+	info := fi.Pkg.TypesInfo
+	construct := "processBlock:field-block-applied-only-if-not-already-merged"
+	var apply *ast.CallExpr
+	for _, cs := range eng.Calls(info, fi.Decl.Body) {
+		if cs.Name == "internal/core/block.ProcessBlock" && cs.Lit == nil {
+			apply = cs.Call
+		}
+	}
+	if apply == nil {
+		c.Unknown(rule, construct, fi.Decl.Pos(), "anchor-unresolved: the call of coreblock.ProcessBlock")
+		return
+	}
+	var linkParam types.Object
+	for _, p := range paramObjs(info, fi.Decl) {
+		if strings.HasSuffix(eng.TypeName(p.Type()), "cid.Link") {
+			linkParam = p
+		}
+	}
+	// the merged-check: a bool, err := f(… blockLink …) where f consults a head set
+	consultsHeads := func(call *ast.CallExpr) bool {
+		g := c.P.FuncOfObj(eng.Callee(info, call))
+		if g == nil || g.Decl.Body == nil {
+			return false
+		}
+		for _, cs := range eng.Calls(g.Pkg.TypesInfo, g.Decl.Body) {
+			if strings.HasSuffix(cs.Name, "block.NewHeadSet") || strings.HasSuffix(cs.Name, "block.(*heads).List") || strings.HasSuffix(cs.Name, "block.(*heads).IsHead") {
+				return true
+			}
+		}
+		return false
+	}
+	var check *ast.AssignStmt
+	ast.Inspect(fi.Decl.Body, func(m ast.Node) bool {
+		as, ok := m.(*ast.AssignStmt)
+		if !ok || len(as.Rhs) != 1 || len(as.Lhs) != 2 {
+			return true
+		}
+		call, ok := ast.Unparen(as.Rhs[0]).(*ast.CallExpr)
+		if !ok || !consultsHeads(call) {
+			return true
+		}
+		for _, a := range call.Args {
+			if linkParam != nil && mentionsObj(info, a, linkParam) {
+				check = as
+			}
+		}
+		return true
+	})
+	if check == nil {
+		c.Bad(rule, construct, apply.Pos(), "processBlock applies every field block it is handed without consulting the field's heads for the block's own cid: a field block linked from two composites (the same change made on two nodes) is applied twice and re-added as a head although a current head names it as its parent")
+		return
+	}
+	okVar := eng.ObjOf(info, check.Lhs[0])
+	flow := eng.NewFlow(info, fi.Decl.Body)
+	apt, _ := flow.PointOf(apply)
+	cpt, _ := flow.PointOf(check)
+	kindAtom := func(e ast.Expr) eng.Tri {
+		if call, ok := ast.Unparen(e).(*ast.CallExpr); ok && len(call.Args) == 0 {
+			if se, ok := call.Fun.(*ast.SelectorExpr); ok && (se.Sel.Name == "IsComposite" || se.Sel.Name == "IsCollection") {
+				return eng.False // the field-block path
+			}
+		}
+		return eng.Unknown
+	}
+	edge := func(atom func(ast.Expr) eng.Tri) func(ast.Expr, bool) bool {
+		return func(cond ast.Expr, taken bool) bool {
+			switch eng.EvalBool(info, cond, atom) {
+			case eng.True:
+				return taken
+			case eng.False:
+				return !taken
+			}
+			return true
+		}
+	}
+	unchecked := flow.ReachesWithout(apt, func(nd ast.Node) bool { return nd == ast.Node(check) }, edge(kindAtom))
+	applied := flow.Forward(cpt, false, eng.Walk{
+		Visit: func(p eng.Point, _ ast.Node) eng.Action {
+			if p == apt {
+				return eng.Hit
+			}
+			return eng.Continue
+		},
+		Edge: edge(func(e ast.Expr) eng.Tri {
+			if o := eng.ObjOf(info, e); o != nil && o == okVar {
+				return eng.True
+			}
+			return kindAtom(e)
+		}),
+	})
+	c.Check(!unchecked && !applied, rule, construct, apply.Pos(), "a field block that is already merged is not applied again",
+		"on the field-block path coreblock.ProcessBlock can be reached without the already-merged check, or although it answered true: a field block linked from two composites is applied twice and re-added as a head although a current head names it as its parent")
+}
